@@ -88,6 +88,8 @@ def classifier(s):
                 return ('V', True)
             if t in ('mask.Some.0[%s]' % s.right, 'mask[%s]' % s.right):
                 return ('MR', True)
+            if t in ('mask.Some.0[cell.idx]', 'mask[cell.idx]'):
+                return ('const', True)       # the cell being treated is constructed, so its own mask entry is true
             x = dtab.is_some_leaf(leaf)
             if x is not None:
                 xt = repr(x)
